@@ -169,16 +169,25 @@ def run(rep, tier, rng):
             tree_predicate("v2", data, want, body, layout)
 
     # ---------------- the codec is the declared one ----------------
+    import codecs as _c
     for charset, codec in CODECS.items():
         out = K.call(H, H.OFXHeaderV1, 102, charset=charset)
-        if out[0] != "ok" or out[1].codec.replace("-", "_").lower() not in (codec, codec.replace("_", "")):
-            import codecs as _c
-            got = None if out[0] != "ok" else out[1].codec
-            if got is None or _c.lookup(got).name != _c.lookup(codec).name:
-                fails.append(C.Failure("codec:%s-not-%s" % (charset, codec), "OFXHeaderV1(charset=%r).codec is %r, expected %s" % (charset, got, codec),
-                                       {"case": K.jsonable(("ctor1", 102, None, None, None, None, charset, None, None, None)), "expect_codec": codec}))
-    import codecs as _c
-    if _c.lookup(H.OFXHeaderV2.codec).name != "utf-8":
+        got = None
+        if out[0] == "ok":
+            g = K.call(H, lambda h: h.codec, out[1])
+            got = g[1] if g[0] == "ok" else None
+        try:
+            same = got is not None and _c.lookup(got).name == _c.lookup(codec).name
+        except LookupError:
+            same = False
+        if not same:
+            fails.append(C.Failure("codec:%s-not-%s" % (charset, codec), "OFXHeaderV1(charset=%r).codec is %r, expected %s" % (charset, got, codec),
+                                   {"case": K.jsonable(("ctor1", 102, None, None, None, None, charset, None, None, None)), "expect_codec": codec}))
+    try:
+        v2same = _c.lookup(H.OFXHeaderV2.codec).name == "utf-8"
+    except LookupError:
+        v2same = False
+    if not v2same:
         fails.append(C.Failure("codec:v2-not-utf_8", "OFXHeaderV2.codec is %r" % (H.OFXHeaderV2.codec,), {"case": None}))
 
     # ---------------- malformed stream (model vs implementation only) ----------------
